@@ -748,6 +748,21 @@ func c13fileResume(c *core.Ctx, api c13api, stream string, ds []docSpan, wantFp 
 		return
 	}
 	c13pipeAndBuffer(c, api, stream, ds, wantFp)
+	if !api.json && !api.seq && c.R.Intn(12) == 0 {
+		// a regular file whose size is reported as 0 although it delivers data (procfs): the file readers read, they do not
+		// trust the size. /proc/self/comm holds up to 15 bytes; the old content is put back.
+		const pf = "/proc/self/comm"
+		if old, err := os.ReadFile(pf); err == nil && os.WriteFile(pf, []byte("<a/><b>c</b>"), 0o644) == nil {
+			ms, e1 := mxj.NewMapsFromXmlFile(pf)
+			mr, e2 := mxj.NewMapsFromXmlFileRaw(pf)
+			os.WriteFile(pf, bytes.TrimSpace(old), 0o644)
+			c.Count("file-reader-checks:size-0-file-with-data")
+			c.Eval()
+			if e1 != nil || e2 != nil || len(ms) != 2 || len(mr) != 2 {
+				c.Violate("c13-file-reader", "the file readers do not return the documents of a regular file that reports size 0 (procfs)", core.D{"file": pf, "content": "<a/><b>c</b>", "maps": len(ms), "maps_raw": len(mr), "err": fmt.Sprint(e1, e2)})
+			}
+		}
+	}
 	// resume on the same file with the plain reader of the same codec
 	for i := k + 1; i <= len(ds); i++ {
 		var m interface{}
